@@ -427,13 +427,17 @@ type worldCfg struct {
 }
 
 type world struct {
-	cfg   worldCfg
-	m     *model.DB
-	ds    []drv.Real
-	Ops   []model.Op
-	pool  map[string][]model.Item // table -> keys of interest
-	prop  string
-	steps int64
+	// checkEvery > 1: the full-state comparison runs only after every n-th
+	// step (a defect may hide from an observer that reads after every step)
+	checkEvery int
+	sinceCheck int
+	cfg        worldCfg
+	m          *model.DB
+	ds         []drv.Real
+	Ops        []model.Op
+	pool       map[string][]model.Item // table -> keys of interest
+	prop       string
+	steps      int64
 }
 
 func newWorld(prop string, cfg worldCfg) *world {
@@ -519,6 +523,21 @@ func (w *world) do(op model.Op) (model.Result, int, *failure) {
 	}
 	w.m = next
 	return want, stepDone, nil
+}
+
+// maybeCheck runs check() according to the world's check period.
+func (w *world) maybeCheck() *failure {
+	w.sinceCheck++
+	if w.checkEvery > 1 && w.sinceCheck < w.checkEvery {
+		return nil
+	}
+	w.sinceCheck = 0
+	return w.check()
+}
+
+// drawCheckPeriod draws how often the full-state comparison runs.
+func (w *world) drawCheckPeriod(rt *rapid.T) {
+	w.checkEvery = rapid.SampledFrom([]int{1, 1, 1, 2, 3, 5, 8}).Draw(rt, "checkEvery")
 }
 
 // check compares the full observable state of every driver with the model.
@@ -672,13 +691,14 @@ func (w *world) whitebox(d drv.Real, tn string, mt *model.Table) *failure {
 
 // historyCase is the replayable form of a stateful case.
 type historyCase struct {
-	Cfg  worldCfg                `json:"cfg"`
-	Pool map[string][]model.Item `json:"pool,omitempty"`
-	Ops  []model.Op              `json:"ops"`
+	CheckEvery int                     `json:"checkEvery,omitempty"`
+	Cfg        worldCfg                `json:"cfg"`
+	Pool       map[string][]model.Item `json:"pool,omitempty"`
+	Ops        []model.Op              `json:"ops"`
 }
 
 func (w *world) asCase() historyCase {
-	return historyCase{Cfg: w.cfg, Pool: w.pool, Ops: w.Ops}
+	return historyCase{CheckEvery: w.checkEvery, Cfg: w.cfg, Pool: w.pool, Ops: w.Ops}
 }
 
 // replayHistory re-executes a recorded history with a check after each step.
@@ -692,15 +712,16 @@ func replayHistory(prop string) func(raw json.RawMessage) *failure {
 		if hc.Pool != nil {
 			w.pool = hc.Pool
 		}
+		w.checkEvery = hc.CheckEvery
 		for _, op := range hc.Ops {
 			if _, _, f := w.do(op); f != nil {
 				return f
 			}
-			if f := w.check(); f != nil {
+			if f := w.maybeCheck(); f != nil {
 				return f
 			}
 		}
-		return nil
+		return w.check()
 	}
 }
 
